@@ -15,20 +15,20 @@ TEXT = {
          'Lean kernel (core only for C03, no Mathlib); compressed-key round trip carries the square-root hypothesis until linked with Proofs/Field; tie to C = differential testing of the hand-written model.'),
  'C04': ('Heap sort proved to return a sorted permutation for every length and every total preorder (fuel sufficiency included); key-algebra commutation proved under the group law; all 15+ API functions tied by correspondence incl. chains of mixed tweaks, cancelling combines, sort lengths to 200.',
          'Lean kernel + Mathlib for the algebra part; statements about arbitrary parsed keys that need n·Q = ∞ carry that hypothesis explicitly; tie to C = differential testing.'),
- 'C05': ('SHA-256 streaming object proved equal to one-shot SHA-256 for every chunking and length (no size hypothesis), tagged hashes / midstates / HMAC / RFC 6979 output length, kernel-checked NIST/RFC vectors; field, scalar, group, ecmult, multi-scalar internals tied by correspondence in 3–6 build configurations (int128 native/struct, int64, asm, VERIFY, -O2, several table sizes) with edge-biased operands, all addition special cases, every table entry used.',
-         'Lean kernel; limb-level theorems are about the IR REGENERATED from the C sources (5x52 and 10x26 mul/sqr, normalize, normalize_weak, add, mul_int, half, negate; translation validated by running IR and C function on the same limbs); known finding F4 (10x26 normalisation wrong on the magnitude-32 extreme element); scalar limb kernels, safegcd, assembly and ecmult algorithm internals are tied by correspondence only.'),
+ 'C05': ('Limb-level and group-level theorems about code REGENERATED from the C sources on every run: 5x52 and 10x26 field mul/sqr/normalize/add/mul_int/half/negate exact for all limb values within the documented magnitudes (plus the invariant that keeps the 10x26 normalisation away from finding F4), scalar 4x64 add/negate/mul_512/reduce_512/mul/half/cadd_bit/mul_shift_var, the emulated 128-bit integer, and the group functions of group_impl.h (gej_double, complete gej_add_ge, gej_add_var, gej_add_ge_var, gej_add_zinv_var, ...) proved equal to the affine group law with every magnitude precondition discharged statically; SHA-256 streaming = one-shot for every chunking, tagged hashes, HMAC, RFC 6979; every translated function is also executed against the real one (k_run, f_run) and the whole arithmetic API is compared with the model in four limb/asm configurations (six in the thorough tier).',
+         'Lean kernel + Mathlib; translator tools/c2lean_k.py / c2lean_f.py over clang-14 ASTs (validated by running IR and C function on the same inputs); the value semantics of the group-level IR rests on the limb-level theorems, their composition (argument aliasing inside field primitives) is checked by correspondence only; x86-64 assembly, safegcd modinv, wNAF/Strauss/Pippenger/comb algorithms are tied by correspondence only (with carry-maximising crafted inputs); known finding F4 (10x26 normalisation on the magnitude-32 extreme of fe_get_bounds).'),
  'C06': ('Leakage-trace non-interference proved for the translated constant-time primitives via a verified taint checker; the compiled binary is observed under valgrind with secrets undefined (own copy of the maintainers\' secret-argument list, several configurations).',
          'Source-level leakage model of the translator; compiler/CPU behaviour outside any Lean model (partial); valgrind observes executed paths only.'),
  'C07': ('Index/length arithmetic and closure (parsed ⇒ valid) of every parser proved on the model; every entry point run under ASan+UBSan+leak detection with callback counters on structured mutations of valid artefacts and random bytes.',
          'Memory safety of the compiled C is a runtime fact: proved for the modelled logic, observed by sanitizers on generated inputs (partial).'),
  'C08': ('commit = b·G + v·H with exact failure cases, tally ⇔ sum = ∞, blind-sum bookkeeping, codecs; model tied by correspondence (boundary blinds/values, mixed generators, balanced/unbalanced tallies, all prefixes × boundary x).',
          'Lean kernel + Mathlib; "balance only if values balance" needs independence of generators (discrete-log assumption) and is stated with that hypothesis.'),
- 'C09': ('Parameter layer proved for all inputs (value reconstruction, ring layout bounds, header round trip, size bound); ring and proof completeness under the group law; byte-exact correspondence of sign/verify/rewind/info incl. exhaustive exp×min_bits grid.',
+ 'C09': ('Parameter layer proved for all inputs (value reconstruction, ring layout bounds, header round trip, size bound); `rangeproof_complete`: every proof that sign creates is accepted by verify with the header\'s range (no expanded ring key at infinity); Borromean ring completeness; byte-exact correspondence of sign/verify/rewind/info incl. exhaustive exp×min_bits grid.',
          'Lean kernel + Mathlib; "any other nonce fails" is conditional on hash outputs differing; tie to C = differential testing.'),
  'C10': ('Header and guard rejections proved on the model for all remaining bytes (reserved bit, exp>18, overflowing ranges, trailing bytes, spare sign bits, scalars ≥ n, x ≥ p); adversarial prover (model-built proofs with chosen free values, s+n / x+p re-encodings) against the real verifier.',
          'Lean kernel; soundness against forgery is cryptographic and not claimed; tie to C = differential testing.'),
  'C11': ('Parser proved to accept exactly canonical encodings with bounds ≤ 256 inputs; initialize/generate/verify modelled incl. CSPRNG; adversarial prover and structural parser enumeration against the real code.',
-         'Lean kernel; completeness of generate is proved for the cases the code supports (it refuses when any input tag equals the output tag); tie to C = differential testing.'),
+         'Lean kernel + Mathlib; `generate` => `verify` proved (hypotheses: forged scalars non-zero, no stray bitmap bits); generate refuses when any input tag equals the output tag; tie to C = differential testing + call-site guard facts.'),
  'C12': ('BIP-327 functions modelled object-for-object; honest-session completeness under the group law; byte-exact correspondence of all 15+ API functions incl. infinity nonces, duplicate keys, tweak chains, 64-bit counters.',
          'Lean kernel + Mathlib; "fails for any other key" is conditional (hash hypotheses); tie to C = differential testing.'),
  'C13': ('partial_sign proved to leave the secret nonce all-zero on every path; zero/foreign nonces never sign; history invariant by induction over arbitrary call sequences; exhaustive enumeration of call histories (depth 3–4) against the real code with raw-byte inspection of the nonce objects.',
@@ -38,7 +38,7 @@ TEXT = {
  'C15': ('s2c / anti-exfil modelled on top of the ECDSA signing loop; opening equality of signer-commit and sign proved on the model; protocol op compares the two separately written C derivations on boundary messages.',
          'Lean kernel; equality of the two derivations in C is what the correspondence checks; "fails for any other datum" conditional.'),
  'C16': ('Codec iff + round trips; verification of an EMPTY key list proved impossible (finding F1, repaired in /repo by a fix: commit); count/scalar guards; forged and mutated signatures against the real code, counts 0..255.',
-         'Lean kernel; ring-signature soundness is cryptographic and not claimed; tie to C = differential testing.'),
+         'Lean kernel + Mathlib; `sign` => `verify` proved (no other ring key at infinity), a ring key at infinity never verifies, sign refuses a zero tweaked secret (F2); ring-signature soundness is cryptographic and not claimed; tie to C = differential testing + call-site guard facts.'),
  'C17': ('Incremental aggregation proved equal to one-shot for every split; length and guard theorems; verify unfolded to the spec equation; correspondence over all 2-/3-way splits, buffers, re-encodings (incl. s = n for the empty aggregate).',
          'Lean kernel; completeness needs the group law; tie to C = differential testing.'),
  'C18': ('ECDH/XDH agreement under the group law; ElligatorSwift map/inverse modelled branch by branch; correspondence incl. all exceptional inputs and BIP-324 vectors.',
